@@ -197,4 +197,9 @@ func runC01(c *Ctx) {
 	c.Has(r8, nf, "exclude ids read from option 'exclude'", `^call:wamp\.AsID\(call:wamp\.AsList\(%msg\.Options\["exclude"\],ok#0\)#0\[`, 1)
 	c.Has(r8, nf, "eligible ids read from option 'eligible'", `^call:wamp\.AsID\(call:wamp\.AsList\(%msg\.Options\["eligible"\],ok#0\)#0\[`, 1)
 	c.R.Floor(r8, 12)
+
+	// R9: a departed session leaves the delivery set before its peer is closed
+	const r9 = "C01.R9 departed sessions are removed from the broker"
+	ruleSessionRemoval(c, r9)
+	c.R.Floor(r9, 14)
 }
